@@ -24,6 +24,8 @@ def H(**kw):
     # 'playback': no nondeterministic environment model in the way => the solver's assignment is re-executed natively.
     # 'model'   : the harness depends on an environment model (ideal AEAD table, recorders returning fresh values);
     #             a counterexample is reported from the model run, with the assignment saved in the witness file.
+    if kw["name"].startswith(("enc_format", "enc_faults", "enc_short_writes", "dec_attack", "dec_faults")):
+        kw.setdefault("replay", "playback")  # these have a native twin (real AEAD): see DESIGN 7.4
     kw.setdefault("replay", "model" if kw["name"].startswith(("enc_", "dec_", "hdr_", "noise_", "cmd_", "main_e", "c18_blockmix", "c18_romix", "c18_envelope", "c18_public", "c19_hkdf", "c19_x25519", "c06_hkdf")) else "playback")
     if "mod" not in kw:
         n = kw["name"]
